@@ -106,3 +106,166 @@ func (o *Once) Do(f func()) {
 		f()
 	}
 }
+
+func (m *Mutex) TryLock() bool {
+	if !vsched.Active() {
+		return m.real.TryLock()
+	}
+	vsched.SyncPoint(vsched.KAtomic, &m.st, 0, "Mutex.TryLock")
+	if m.st.W {
+		return false
+	}
+	m.st.W = true
+	return true
+}
+
+func (m *RWMutex) TryLock() bool {
+	if !vsched.Active() {
+		return m.real.TryLock()
+	}
+	vsched.SyncPoint(vsched.KAtomic, &m.st, 0, "RWMutex.TryLock")
+	if m.st.W || m.st.Ann || m.st.R > 0 {
+		return false
+	}
+	m.st.RW, m.st.W = true, true
+	return true
+}
+
+func (m *RWMutex) TryRLock() bool {
+	if !vsched.Active() {
+		return m.real.TryRLock()
+	}
+	vsched.SyncPoint(vsched.KAtomic, &m.st, 0, "RWMutex.TryRLock")
+	if m.st.W || m.st.Ann {
+		return false
+	}
+	m.st.R++
+	return true
+}
+
+type rlocker RWMutex
+
+func (r *rlocker) Lock()   { (*RWMutex)(r).RLock() }
+func (r *rlocker) Unlock() { (*RWMutex)(r).RUnlock() }
+
+// RLocker mirrors (*sync.RWMutex).RLocker.
+func (m *RWMutex) RLocker() Locker { return (*rlocker)(m) }
+
+// Cond mirrors sync.Cond; under the scheduler waiting and signalling are scheduling points.
+type Cond struct {
+	L       Locker
+	real    *sync.Cond
+	waiters []*condWaiter
+}
+
+type condWaiter struct{ signalled bool }
+
+func NewCond(l Locker) *Cond { return &Cond{L: l, real: sync.NewCond(l)} }
+
+func (c *Cond) Wait() {
+	if !vsched.Active() {
+		c.real.Wait()
+		return
+	}
+	w := &condWaiter{}
+	c.waiters = append(c.waiters, w)
+	c.L.Unlock()
+	vsched.Env("Cond.Wait", c, false, func() bool { return w.signalled })
+	c.L.Lock()
+}
+
+func (c *Cond) Signal() {
+	if !vsched.Active() {
+		c.real.Signal()
+		return
+	}
+	vsched.Env("Cond.Signal", c, false, nil)
+	if len(c.waiters) > 0 {
+		c.waiters[0].signalled = true
+		c.waiters = c.waiters[1:]
+	}
+}
+
+func (c *Cond) Broadcast() {
+	if !vsched.Active() {
+		c.real.Broadcast()
+		return
+	}
+	vsched.Env("Cond.Broadcast", c, false, nil)
+	for _, w := range c.waiters {
+		w.signalled = true
+	}
+	c.waiters = nil
+}
+
+// Pool mirrors sync.Pool; under the scheduler it is a deterministic LIFO free list.
+type Pool struct {
+	New   func() any
+	real  sync.Pool
+	items []any
+}
+
+func (p *Pool) Get() any {
+	if !vsched.Active() {
+		if v := p.real.Get(); v != nil {
+			return v
+		}
+		if p.New != nil {
+			return p.New()
+		}
+		return nil
+	}
+	vsched.Env("Pool.Get", p, false, nil)
+	if n := len(p.items); n > 0 {
+		v := p.items[n-1]
+		p.items = p.items[:n-1]
+		return v
+	}
+	if p.New != nil {
+		return p.New()
+	}
+	return nil
+}
+
+func (p *Pool) Put(v any) {
+	if !vsched.Active() {
+		p.real.Put(v)
+		return
+	}
+	vsched.Env("Pool.Put", p, false, nil)
+	p.items = append(p.items, v)
+}
+
+// Map mirrors sync.Map (every operation is a scheduling point on the map).
+type Map struct{ real sync.Map }
+
+func (m *Map) pt(readLike bool)                 { vsched.Env("Map", m, readLike, nil) }
+func (m *Map) Load(k any) (any, bool)           { m.pt(true); return m.real.Load(k) }
+func (m *Map) Store(k, v any)                   { m.pt(false); m.real.Store(k, v) }
+func (m *Map) LoadOrStore(k, v any) (any, bool) { m.pt(false); return m.real.LoadOrStore(k, v) }
+func (m *Map) LoadAndDelete(k any) (any, bool)  { m.pt(false); return m.real.LoadAndDelete(k) }
+func (m *Map) Delete(k any)                     { m.pt(false); m.real.Delete(k) }
+func (m *Map) Swap(k, v any) (any, bool)        { m.pt(false); return m.real.Swap(k, v) }
+func (m *Map) CompareAndSwap(k, o, n any) bool  { m.pt(false); return m.real.CompareAndSwap(k, o, n) }
+func (m *Map) CompareAndDelete(k, o any) bool   { m.pt(false); return m.real.CompareAndDelete(k, o) }
+func (m *Map) Range(f func(k, v any) bool)      { m.pt(true); m.real.Range(f) }
+func (m *Map) Clear()                           { m.pt(false); m.real.Clear() }
+
+// OnceFunc, OnceValue and OnceValues mirror the sync helpers.
+func OnceFunc(f func()) func() {
+	var o Once
+	return func() { o.Do(f) }
+}
+
+func OnceValue[T any](f func() T) func() T {
+	var o Once
+	var v T
+	return func() T { o.Do(func() { v = f() }); return v }
+}
+
+func OnceValues[T1, T2 any](f func() (T1, T2)) func() (T1, T2) {
+	var o Once
+	var a T1
+	var b T2
+	return func() (T1, T2) { o.Do(func() { a, b = f() }); return a, b }
+}
